@@ -25,10 +25,17 @@ package rewards
 // round-tripping of Amount), like balance.get/set. Everything above is proved against these.
 // (On the error path the real get returns a nil amt; no caller in the repository reads amt when
 // err != nil, and the contract says "fresh" unconditionally as balance.get does.)
-//@ assume func (*RewardCumulativeStore).get
+// get is VERIFIED against the State (`claims`): it decodes what is visible under exactly the key it is given (0 for an absent or
+// empty record); trusted per clause: the identification of cum(rws)[k] with that raw record. (set takes an interface{} whose
+// dynamic type the serializer model cannot see: it stays assumed.)
+//@ func (*RewardCumulativeStore).get
+//@   assumes rws != nil && rws.state != nil && wfState(rws.state)
 //@   modifies nothing
-//@   ensures amt != nil && fresh(amt)
-//@   ensures err == nil ==> big(amt) == cum(rws)[str(key)]
+//@   trustframe
+//@   trusts amt != nil && fresh(amt)
+//@   trusts err == nil ==> big(amt) == cum(rws)[str(key)]
+//@   claims err == nil && !old(exhausted(rws.state.cache)) && vHas(rws.state)[str(key)] && len(vVal(rws.state)[str(key)]) != 0 ==> big(amt) == deser(vVal(rws.state)[str(key)], "balance.Amount")   // C13.raw-record
+//@   claims !old(exhausted(rws.state.cache)) && vHas(rws.state)[str(key)] && len(vVal(rws.state)[str(key)]) == 0 ==> err == nil && amt != nil && big(amt) == 0   // C13.raw-record
 
 //@ func (*RewardCumulativeStore).getBalanceKey
 //@   modifies nothing
@@ -302,15 +309,29 @@ package rewards
 // with State.IterateRange, which is not under contract)
 // GetWithHeight cannot fail: State.Get never returns an error (it falls back to ChainState.Get, whose error is always
 // nil: C09) and the stored bytes were written by SetWithHeight with the same serializer (T-SER round trip).
-//@ assume func (*RewardStore).GetWithHeight
+// GetWithHeight / SetWithHeight are VERIFIED against the State (`claims`): the chunk record of (address, height) lives under
+// rs.prefix ++ the chunk key generateKey builds (verified below: C13.chunk-key); a successful write leaves exactly the
+// serialised amount there and writes nothing else, a failed one writes nothing; the read decodes what is visible there.
+// TRUSTED per clause: the typed ledger rwd(rs)[rwdKey(..)].
+//@ ghost func rwdRawKey(rs *RewardStore, a bytes, h int) string = str(rs.prefix) + ((addrStr(str(a)) + "_") + @int_str(chunkIdx(rs, h, rs.rewardOptions.RewardInterval)))
+//@ func (*RewardStore).GetWithHeight
+//@   assumes rs != nil && rs.State != nil && wfState(rs.State) && rs.rewardOptions != nil
 //@   modifies nothing
+//@   trustframe
 //@   ensures amount != nil && fresh(amount)
-//@   ensures err == nil && big(amount) == rwd(rs)[rwdKey(rs, address, height)]
+//@   trusts err == nil && big(amount) == rwd(rs)[rwdKey(rs, address, height)]
+//@   claims err == nil && !old(exhausted(rs.State.cache)) && vHas(rs.State)[rwdRawKey(rs, address, height)] && len(vVal(rs.State)[rwdRawKey(rs, address, height)]) != 0 ==> big(amount) == deser(vVal(rs.State)[rwdRawKey(rs, address, height)], "balance.Amount")   // C13.raw-record
 
-//@ assume func (*RewardStore).SetWithHeight
+//@ func (*RewardStore).SetWithHeight
+//@   assumes rs != nil && rs.State != nil && wfState(rs.State) && rs.rewardOptions != nil && amount != nil
+//@   assumes !tomb(ser(big(amount), "balance.Amount"))                                                        // A-NOTOMB a serialised record is never the deletion marker
 //@   modifies rwd(rs)[rwdKey(rs, address, height)], vHas(rs.State), vVal(rs.State)
-//@   ensures result == nil ==> rwd(rs)[rwdKey(rs, address, height)] == big(amount)
-//@   ensures result != nil ==> rwd(rs)[rwdKey(rs, address, height)] == old(rwd(rs))[rwdKey(rs, address, height)]
+//@   trustframe
+//@   trusts result == nil ==> rwd(rs)[rwdKey(rs, address, height)] == big(amount)
+//@   trusts result != nil ==> rwd(rs)[rwdKey(rs, address, height)] == old(rwd(rs))[rwdKey(rs, address, height)]
+//@   claims result == nil ==> vHas(rs.State)[rwdRawKey(rs, address, height)] && vVal(rs.State)[rwdRawKey(rs, address, height)] == ser(old(big(amount)), "balance.Amount")   // C13.raw-record
+//@   claims result == nil ==> forall k string :: k != rwdRawKey(rs, address, height) ==> vHas(rs.State)[k] == old(vHas(rs.State))[k] && vVal(rs.State)[k] == old(vVal(rs.State))[k]   // C13.raw-record
+//@   claims result != nil ==> vHas(rs.State) == old(vHas(rs.State)) && vVal(rs.State) == old(vVal(rs.State))   // C13.raw-record
 
 //@ assume func (*RewardStore).GetMaturedAmount
 //@   modifies nothing
